@@ -646,7 +646,17 @@ def decoder_fields(prog, pv, ms, body, owner_rx, record_short):
                 for f, o in zip(s.rv["fields"], s.rv["ops"]):
                     if params_of(pv.of_operand(fb, o), body.id) or params_of(pv.of_operand(fb, o), fb.id):
                         out.add(f)
+            # ... or a field of the record assigned directly (`gene.hpos = HpoGroup::from(term_ids)`), the value coming from the input
+            if s.k == "assign" and not s.place.is_local():
+                fs_ = [e for e in s.place.fields() if e != "*" and e[0] == "f" and re.search(owner_rx, e[2])]
+                if fs_ and s.rv["k"] in ("use", "cast") and (params_of(pv.of_operand(fb, s.rv["op"]), body.id) or params_of(pv.of_operand(fb, s.rv["op"]), fb.id)):
+                    out.add(fs_[0][1])
         for bi, t in fb.calls():
+            # (a call that writes its result straight into a field of the record: `gene.hpos = HpoGroup::from(ids)` is a call terminator in MIR)
+            if t.dest is not None and not t.dest.is_local():
+                fs_ = [e for e in t.dest.fields() if e != "*" and e[0] == "f" and re.search(owner_rx, e[2])]
+                if fs_ and any(params_of(pv.of_operand(fb, a_), body.id) or params_of(pv.of_operand(fb, a_), fb.id) for a_ in t.args):
+                    out.add(fs_[0][1])
             for tg in impls(t.callee):
                 if tg.kind not in ("Fn", "AssocFn"):
                     continue
